@@ -17,7 +17,7 @@ from fractions import Fraction
 
 import numpy as np
 
-from . import core, pyref
+from . import core, forms, pyref
 from .tlc import MachineryError, write_cfg
 from .xreal import to_float, to_fraction, ulps
 
@@ -81,6 +81,17 @@ def run(ctx: core.Ctx):
             ctx.violation(f"{op}.compute/result-aliased", {"op": op}, "the first result is unchanged by a later call", "modified", note="an earlier result array was overwritten by a later call of the same shape")
         elif again.shape != V.shape or not np.array_equal(again, V[::-1], equal_nan=True):
             ctx.violation(f"{op}.compute/formula/second-array-call", {"op": op}, "table (reversed)", "differs", note="a second array call of the same shape on the same object differs from the elementwise values")
+        # other forms of the same operands: read-only, views with strides, a column, 3-D, transposed / Fortran order, float32
+        for (label, fa, back, shape), (_, fb, _, _) in zip(forms.variants(A, True), forms.variants(B, True)):
+            ctx.count(1)
+            try:
+                r = np.asarray(objs[op].compute(fa, fb), dtype=float)
+            except Exception as ex:
+                ctx.violation(f"{op}.compute/argument-form/{label}/raises-{type(ex).__name__}", {"op": op, "form": label}, "elementwise values", f"{type(ex).__name__}: {ex}")
+                continue
+            if r.shape != shape or not np.array_equal(back(r), V, equal_nan=True):
+                ctx.violation(f"{op}.compute/argument-form/{label}/values", {"op": op, "form": label}, "table", "differs",
+                              note=f"{label} operands give other values than the same values in plain vectors")
         # batches of length one keep their shape
         for sh in ((1,), (1, 1)):
             a1, b1 = np.full(sh, A[len(A) // 2]), np.full(sh, B[len(B) // 3])
